@@ -33,15 +33,29 @@ def forbidden_tokens():
     return hits
 
 
+def property_files(prop):
+    """Properties/<prop>.lean plus companion files Properties/<prop><Suffix>.lean (same property, later layers)"""
+    d = os.path.join(LEAN, "Jasm", "Properties")
+    out = []
+    for f in sorted(os.listdir(d)):
+        if re.fullmatch(re.escape(prop) + r"([A-Z][A-Za-z]*)?\.lean", f):
+            out.append(os.path.join(d, f))
+    return out
+
+
 def property_theorems(prop):
-    """names (with namespace) of the theorems stated in Properties/<prop>.lean"""
-    path = os.path.join(LEAN, "Jasm", "Properties", prop + ".lean")
-    if not os.path.exists(path):
-        return []
-    body = strip_comments(open(path).read())
-    ns = re.search(r"^namespace\s+(\S+)", body, re.M)
-    prefix = (ns.group(1) + ".") if ns else ""
-    return [prefix + m.group(1) for m in re.finditer(r"^theorem\s+(\S+)", body, re.M)]
+    """names (with namespace) of the theorems stated in the property's files"""
+    out = []
+    for path in property_files(prop):
+        body = strip_comments(open(path).read())
+        ns = re.search(r"^namespace\s+(\S+)", body, re.M)
+        prefix = (ns.group(1) + ".") if ns else ""
+        out += [prefix + m.group(1) for m in re.finditer(r"^theorem\s+(\S+)", body, re.M)]
+    return out
+
+
+def property_modules(prop):
+    return ["Jasm.Properties." + os.path.basename(f)[:-5] for f in property_files(prop)]
 
 
 def tie_theorem_lines():
@@ -100,7 +114,8 @@ def lean_stage(prop, thorough=False, consts_needed=()):
     if thms:
         audit = os.path.join(LEAN, ".lake", "audit_%s.lean" % prop)
         with open(audit, "w") as f:
-            f.write("import Jasm.Properties.%s\n" % prop)
+            for mod in property_modules(prop):
+                f.write("import %s\n" % mod)
             for t in thms:
                 f.write("#print axioms %s\n" % t)
         rc, out = run(["lake", "env", "lean", audit])
@@ -127,7 +142,7 @@ def lean_stage(prop, thorough=False, consts_needed=()):
     if hits:
         raise HarnessError("forbidden tokens in the Lean sources:\n" + "\n".join(hits))
     if thorough and thms:
-        rc, out = run(["lake", "env", "leanchecker", "Jasm.Properties.%s" % prop], timeout=3000)
+        rc, out = run(["lake", "env", "leanchecker"] + property_modules(prop), timeout=3000)
         res["leanchecker"] = "ok" if rc == 0 else "FAILED"
         if rc != 0:
             raise HarnessError("leanchecker rejected Jasm.Properties.%s:\n%s" % (prop, out[-2000:]))
